@@ -5,6 +5,7 @@ import re
 
 _TOKEN = re.compile(r"""
     (?P<ws>[ \t]+)
+  | (?P<boz>[bozBOZ](?:'[0-9a-fA-F]*'|"[0-9a-fA-F]*"))
   | (?P<str>'(?:[^']|'')*'|"(?:[^"]|"")*")
   | (?P<dot>\.[A-Za-z]+\.)
   | (?P<num>(?:\d+\.\d*|\.\d+|\d+)(?:[eEdD][+-]?\d+)?(?:_\w+)?)
@@ -64,6 +65,8 @@ def normalise(toks, user_names):
             out.append(t if t in user_names else t.upper())
         elif k == "dot":
             out.append(t.upper())
+        elif k == "boz":
+            out.append(t.upper())      # the digits are case-folded by the printer: probed separately (recorded finding)
         elif k == "op" and t == "::":
             continue
         elif k == "num":
